@@ -12,19 +12,19 @@ def warm(prop): build()
 def ast_facts():
     p = os.path.join(C.cache_dir(), 'astscan.json')
     if os.path.exists(p): return json.load(open(p)) + [True]
-    f, v = A.scan(os.path.join(C.REPO, 'include'))
+    f, v = A.scan_all(os.path.join(C.REPO, 'include'))
     json.dump([f, v], open(p, 'w'))
     return [f, v, False]
 
 def check(prop, tier, seed, replay=None):
     rep = C.Report(prop, tier, seed); audit = C.proof_audit(prop); rnd = random.Random(seed); thorough = tier == 'thorough'
-    rep.cov['rule'] = ('(a) clang JSON AST of mdspan.hpp + mdarray.hpp: every variable with static/thread storage duration declared under /repo/include must be constexpr/const, no mutable member, no const_cast, no atomic/mutex member; '
+    rep.cov['rule'] = ('(a) clang JSON AST of mdspan.hpp + mdarray.hpp in four configurations (C++20; C++17 with the emulation hook; C++20 with -D_MDSPAN_DEBUG; C++23 with NDEBUG): every variable with static/thread storage duration declared under /repo/include must be constexpr/const, no mutable member, no const_cast, no atomic/mutex member; '
                        '(b) ThreadSanitizer build: T threads (2-8) share one const mdspan, each writes and reads back a disjoint index set (row-major index k belongs to thread k mod T), through the shared view, through private copies '
                        'and through sub-views created concurrently, calling the observers meanwhile; final buffer and per-thread results compared with the model (runMem over a sequential and a round-robin schedule); '
                        'non-trivial = at least 2 threads with at least 2 elements each')
     facts, viol, cached = ast_facts()
     rep.notes['ast_facts'] = facts; rep.notes['ast_cached'] = cached
-    if facts is None: rep.broke(dict(correspondence='AST extraction', why=str(viol)))
+    if facts is None or any(f is None for f in facts.values()): rep.broke(dict(correspondence='AST extraction', why=str(viol)[:2000]))
     for v in (viol or []):
         if v.get('kind') == 'ast-dump-failed': continue
         rep.violation(dict(kind='hidden-state:' + v['kind'], declaration=v))
